@@ -3,7 +3,7 @@
 # reverted fix: commit to /repo's working tree, runs the quick check of the property it was written for,
 # undoes it, and writes tools/selftest_results.md. A row "MISSED" is a hole in the checks.
 cd /verif
-out=tools/selftest_results.md
+out=tools/selftest_results.md; [ -n "$*" ] && out=tools/selftest_partial.md
 rows=()
 run() { # label target props
   local label="$1" target="$2"; shift 2
